@@ -43,11 +43,10 @@ package c12
 //     empty fields as spreadsheets export them, a lone CR as line end.
 //   - classical format: annotations are written as before ("@ key=value; ..."),
 //     other spellings of that part belong to the header parser (C02).
-//   - CSV sheets larger than the 128 KiB detection buffer: see the report of the
-//     strengthening round (refused by the unchanged tree for most positions of
-//     the 128 KiB boundary); generated CSV sheets stay below that size and the
-//     number of sheets cut back for that reason is counted
-//     (csv_sheet_kept_below_128KiB).  Classical sheets go beyond it.
+//   - CSV sheets larger than the 128 KiB detection buffer were refused by the tree
+//     as it was pinned (a record cut at the end of the buffer was not dropped):
+//     repaired in the repository (known_findings.txt) and generated since then,
+//     like the classical sheets beyond that size.
 //   - The in-process runs sniff a small FASTA text first, as the command does with
 //     its sequence input before it reads the sheet: the detection window of the
 //     mimetype package is a process-wide setting that this first sniff enlarges.
@@ -482,7 +481,7 @@ func genShape(t *rapid.T, sh Sheet) *Shape {
 	}
 	if sp.LongKind != "" {
 		lens := longLens
-		if !sh.CSV && chance(t, "shape_long_big", 15) {
+		if chance(t, "shape_long_big", 15) { // (CSV sheets too since the repair of the detection window)
 			lens = longLensBig
 		}
 		sp.LongLen = lens[uniform(t, "shape_longlen", len(lens))]
@@ -539,8 +538,9 @@ func genShapedSheet(t *rapid.T) (Sheet, []string) {
 	}
 	sh.Shape = genShape(t, sh)
 	if sh.CSV && len(sh.Text()) > 128*1024-1024 {
-		evid.Class("csv_sheet_kept_below_128KiB", 1)
-		sh.Shape.LongLen = 60000
+		// (refused by the tree as it was pinned for most positions of the 128 KiB boundary:
+		// repaired in the repository, see known_findings.txt; generated since then)
+		evid.Class("shape:csv_sheet_beyond_128KiB", 1)
 	}
 	sp := sh.Shape
 	text := sh.Text()
